@@ -7,6 +7,7 @@ import (
 	"go/types"
 	"os"
 	"runtime/debug"
+	"sort"
 	"strings"
 
 	"golang.org/x/tools/go/ssa"
@@ -289,7 +290,7 @@ func (c *Ctx) mergeStates(conds []string, sts []*State) *State {
 			lkeys[k] = true
 		}
 	}
-	for k := range lkeys {
+	for _, k := range sortedAllocs(lkeys) {
 		var vs []string
 		same := true
 		for _, s := range sts {
@@ -444,7 +445,30 @@ func (w *World) keyOfAny(fn *ssa.Function) string {
 
 var fnIDs = map[*ssa.Function]int{}
 
+// sortedAllocs: deterministic order over address-taken locals (query text must not depend on map order)
+func sortedAllocs[V any](m map[*ssa.Alloc]V) []*ssa.Alloc {
+	ks := make([]*ssa.Alloc, 0, len(m))
+	for k := range m {
+		ks = append(ks, k)
+	}
+	key := func(a *ssa.Alloc) string {
+		p := ""
+		if a.Parent() != nil {
+			p = a.Parent().String()
+		}
+		return fmt.Sprintf("%s|%012d|%s", p, int(a.Pos()), a.Name())
+	}
+	sort.Slice(ks, func(i, j int) bool { return key(ks[i]) < key(ks[j]) })
+	return ks
+}
+
 func (w *World) fnID(fn *ssa.Function) int {
+	// stable across runs: position in the sorted list of repository functions
+	if len(fnIDs) == 0 {
+		for i, f := range w.AllFuncs {
+			fnIDs[f] = i + 1
+		}
+	}
 	if id, ok := fnIDs[fn]; ok {
 		return id
 	}
